@@ -161,9 +161,9 @@ def _hex(v: int, upper: bool) -> str:
     return "0x" + digits
 
 
-def _operand_text(valkind: str, v: int, expr_text, upper: bool) -> str:
+def _operand_text(valkind: str, v: int, expr_text, upper: bool, symname: str = "some_val") -> str:
     if valkind == "sym":
-        return "some_val"
+        return symname
     if valkind == "expr":
         return expr_text.upper().replace("0X", "0x") if upper else expr_text
     if valkind.startswith("litpad") and v >= 0:
@@ -174,21 +174,21 @@ def _operand_text(valkind: str, v: int, expr_text, upper: bool) -> str:
     return _hex(v, upper)
 
 
-def build(mn: str, shape: str, suffix, valkind: str, v: int, expr_text, lcase: str) -> dict:
+def build(mn: str, shape: str, suffix, valkind: str, v: int, expr_text, lcase: str, symname: str = "some_val", final_newline: bool = True) -> dict:
     upper = lcase in ("upper", "mixed")
     m = {"lower": mn, "upper": mn.upper(), "mixed": mn.capitalize()}[lcase]
     sfx = "" if suffix is None else "." + (suffix.upper() if lcase == "upper" else suffix)
     tmpl = SHAPE[shape][2]
     stmt = m + sfx
     if tmpl is not None:
-        op = tmpl.format(v=_operand_text(valkind, v, expr_text, upper))
-        if upper:   # index letters follow the case choice (the operand text has no other x/y/s)
+        op = tmpl.format(v=_operand_text(valkind, v, expr_text, upper, symname))
+        if upper and symname == "some_val":   # index letters follow the case choice (the operand text has no other x/y/s)
             op = op.replace(",x", ",X").replace(",y", ",Y").replace(",s", ",S")
         stmt += " " + op
     src = "*=0x008000\n"
     if valkind == "sym":
-        src += f"some_val := {_hex(v, False)}\n"
-    src += stmt + "\n"
+        src += f"{symname} := {_hex(v, False)}\n"
+    src += stmt + ("\n" if final_newline else "")
     return {"mn": m, "shape": shape, "suffix": suffix, "valkind": valkind, "v": v, "lcase": lcase, "stmt": stmt, "src": src}
 
 
@@ -279,6 +279,24 @@ def cases(ctx):
                             f"{c['stmt']}\n}}\n")
                 c["valkind"] = "shadow"
                 c["lenient"] = True
+                out.append(c)
+    # operand symbols whose NAME is a register letter or another one-letter name (`a := 0x10` / `inc a`): an identifier operand
+    # is a symbol for every mnemonic, also for those that have an operand-less (accumulator / implied) form
+    one_letter = [(mn, shape, suffix, name, v) for mn in mns for shape in ("dir", "dirx", "imm", "ind") for suffix in (None, "w")
+                  for name, v in (("a", 0x10), ("A", 0x1234), ("x", 0x12), ("s", 0x1234))]
+    for mn, shape, suffix, name, v in (one_letter if tier == "thorough" else
+                                       [t for t in one_letter if t[3] in ("a", "A") and t[1] in ("dir", "dirx")] + rng.sample(one_letter, 300)):
+        c = build(mn, shape, suffix, "sym", v, None, "lower", symname=name)
+        c["valkind"] = "sym:one-letter"
+        out.append(c)
+    # the statement as the very last characters of the text (no final newline), operands of one character
+    for mn in mns:
+        for shape in ("dir", "dirx", "imm", "implied", "ind"):
+            for vk, v, name in (("lit:5", 5, "some_val"), ("sym", 0x1234, "q")):
+                if shape == "implied" and vk == "sym":
+                    continue
+                c = build(mn, shape, None, vk if shape != "implied" else "none", v if shape != "implied" else 0, None, "lower", symname=name, final_newline=False)
+                c["valkind"] = "no-final-newline"
                 out.append(c)
     # negative operands (outside the property's width rule; truncation and the model's sign handling)
     for mn in ("lda", "sta", "jmp", "ldx", "rep"):
